@@ -13,7 +13,8 @@ def main():
         r = {"rel": None, "exc": None, "consensus": None, "complete": None}
         try:
             ds, sc, alg, cons, exc, _ = sweep.concrete_run(p)
-            r["complete"] = bool(ds.is_complete)
+            uni = {x for rk in p["rankings"] for b in rk for x in b}
+            r["complete"] = all({x for b in rk for x in b} == uni for rk in p["rankings"])
             try:
                 rel = alg.is_scoring_scheme_relevant_when_incomplete_rankings(sc)
                 r["rel"] = rel if isinstance(rel, bool) else repr(rel)
